@@ -150,6 +150,10 @@ func runC04(r *run) {
 			}
 			c.attrs = append(c.attrs, gattr{key: []string{"req", "g", "zz"}[g.intn(3)], isGroup: true, val: gval{kind: "group", items: items}})
 		}
+		if i%8 == 3 {
+			// long lists with keys given more than once: the value given last is the member's value
+			c.attrs = append(c.attrs, g.genWideAttrs(true)...)
+		}
 		if g.chance(1, 2) {
 			c.name = []string{"app", "my logger", "q\"uote\nnl", "\xff"}[g.intn(4)]
 		}
